@@ -16,7 +16,7 @@ from vf.common import CaseResult, Check, Scratch, rng_for
 from vf.fakes3 import FakeS3Store, S3Env
 from vf.interpose import GlobalPatch, Interposer, patch_datetime
 
-ALPHABET = ["append", "append", "append", "multi", "delete", "delete", "delete", "delete_append", "readd", "readd", "expire",
+ALPHABET = ["append", "append", "append", "multi", "delete", "delete", "delete", "delete_append", "readd", "readd", "prebuilt", "prebuilt", "expire",
             "delsnap", "delsnap", "fail_commit", "gc0", "gc", "age", "reopen", "retention",
             "open_tx", "commit_tx", "rollback_tx"]
 
